@@ -19,6 +19,17 @@ private def obinsOfFlat : List Float → List (OBin Float)
   | a :: b :: c :: rest => ⟨a, b, if c.isNaN then none else some c⟩ :: obinsOfFlat rest
   | _ => []
 
+private def chainParts : Nat → List String → Option (List (List Float × List (Row Float)))
+  | 0, _ => some []
+  | k + 1, toks => do
+    let ne ← (← toks.head?).toNat?
+    let e ← parseFloats ((toks.drop 1).take ne)
+    let toks2 := toks.drop (1 + ne)
+    let nr ← (← toks2.head?).toNat?
+    let v ← parseFloats ((toks2.drop 1).take (3 * nr))
+    let more ← chainParts k (toks2.drop (1 + 3 * nr))
+    some ((e, rowsOf v) :: more)
+
 private def nanF : Float := 0.0 / 0.0
 
 private def showOpts (l : List (Option Float)) : String := joinFloats (l.map fun v => v.getD nanF)
@@ -36,7 +47,10 @@ private def showBins (l : List (Bin Float)) : String :=
 * `hist2 ne e… (fr to cyc)…`          → contents (row-major) of `histogram(edges)`
 * `hist2n n (fr to cyc)…`             → `range edges;mean edges;contents` of `histogram(n)`
 * `fthist ne e… (fr to cyc)…`         → contents of the recorder's from/to histogram
-* `rmclass rl rr ml mr f d`           → `amp mean upper lower;` same after `scale(f)`; same after `shift(d)`
+* `fthist2 nex ex… ney ey… (fr to cyc)…` → `ex;ey;contents` with different edges for from and to (`[ex, ey]`)
+* `fthistn nx ny (fr to cyc)…`        → `from edges;to edges;contents` for class counts `[nx, ny]`
+* `chain nt t… k [ne e… nr (fr to cyc)×nr]×k` → per collective `range_histogram(e)`, `;`, each re-binned to `t`, `;`, combined
+* `rmclass rl rr ml mr f d`           → `amp mean upper lower R;` same after `scale(f)`; same after `shift(d)`
 * `r1class rl rr f d`                 → likewise for a range-only histogram (no mean level)
 * `ftclass fl fr tl tr f d`           → likewise for a from/to matrix class
 * `rebin nb b… (l r v)…`              → contents after `rebin_histogram(src, from_breaks(b))`
@@ -82,6 +96,34 @@ def handleCollective : List String → Option String
       | "rhist" => some (joinFloats (rangeHistogram edges rows))
       | "hist2" => some (joinFloats (rangeMeanHistogram edges edges rows).flatten)
       | _ => some (joinFloats (fromToHistogram edges edges rows).flatten)
+    | "fthist2" => do
+      -- fthist2 nex ex… ney ey… (fr to cyc)…
+      let nex ← (← rest.head?).toNat?
+      let ex ← parseFloats ((rest.drop 1).take nex)
+      let rest2 := rest.drop (1 + nex)
+      let ney ← (← rest2.head?).toNat?
+      let v ← parseFloats rest2.tail
+      some (joinFloats ex ++ ";" ++ joinFloats (v.take ney) ++ ";" ++
+        joinFloats (fromToHistogram ex (v.take ney) (rowsOf (v.drop ney))).flatten)
+    | "fthistn" => do
+      -- fthistn nx ny (fr to cyc)…
+      let nx ← (← rest.head?).toNat?
+      let ny ← (← (rest.drop 1).head?).toNat?
+      let rows := rowsOf (← parseFloats (rest.drop 2))
+      let ef := autoEdges (rows.map (·.fr)) nx
+      let et := autoEdges (rows.map (·.to)) ny
+      some (joinFloats ef ++ ";" ++ joinFloats et ++ ";" ++ joinFloats (fromToHistogram ef et rows).flatten)
+    | "chain" => do
+      -- chain nt t… k [ne e… nr (fr to cyc)×nr]×k
+      let nt ← (← rest.head?).toNat?
+      let t ← parseFloats ((rest.drop 1).take nt)
+      let rest2 := rest.drop (1 + nt)
+      let k ← (← rest2.head?).toNat?
+      let parts ← chainParts k rest2.tail
+      let hs := parts.map fun p => rangeHistogram p.1 p.2
+      let rb := parts.map fun p => rebin (binsOf p.1 (rangeHistogram p.1 p.2)) t
+      some (";".intercalate (hs.map joinFloats) ++ ";" ++ ";".intercalate (rb.map joinFloats) ++ ";" ++
+        showBins (histRebinCombine parts t))
     | "rhistn" => do
       let n ← (← rest.head?).toNat?
       let rows := rowsOf (← parseFloats rest.tail)
@@ -98,7 +140,7 @@ def handleCollective : List String → Option String
       match v with
       | [rl, rr, ml, mr, f, d] =>
         let c : RMClass Float := ⟨rl, rr, ml, mr⟩
-        let q := fun (c : RMClass Float) => joinFloats [rmAmplitude c, rmMean c, rmUpper c, rmLower c]
+        let q := fun (c : RMClass Float) => joinFloats [rmAmplitude c, rmMean c, rmUpper c, rmLower c, fillR (rmLower c) (rmUpper c)]
         some (q c ++ ";" ++ q (rmScale f c) ++ ";" ++ q (rmShift d c))
       | _ => none
     | "r1class" => do
@@ -106,7 +148,7 @@ def handleCollective : List String → Option String
       match v with
       | [rl, rr, f, d] =>
         let c : RMClass Float := ⟨rl, rr, 0.0, 0.0⟩
-        let q := fun (c : RMClass Float) => joinFloats [rmAmplitude c, rmMean c, rmUpper c, rmLower c]
+        let q := fun (c : RMClass Float) => joinFloats [rmAmplitude c, rmMean c, rmUpper c, rmLower c, fillR (rmLower c) (rmUpper c)]
         some (q c ++ ";" ++ q (rmScale f c) ++ ";" ++ q (r1Shift d c))
       | _ => none
     | "ftclass" => do
@@ -114,7 +156,7 @@ def handleCollective : List String → Option String
       match v with
       | [fl, fr, tl, tr, f, d] =>
         let c : FTClass Float := ⟨fl, fr, tl, tr⟩
-        let q := fun (c : FTClass Float) => joinFloats [ftAmplitude c, ftMean c, ftUpper c, ftLower c]
+        let q := fun (c : FTClass Float) => joinFloats [ftAmplitude c, ftMean c, ftUpper c, ftLower c, fillR (ftLower c) (ftUpper c)]
         some (q c ++ ";" ++ q (ftScale f c) ++ ";" ++ q (ftShift d c))
       | _ => none
     | "rebin" => do
